@@ -142,6 +142,20 @@ def check_msg(ctx, ircmsgs, g, mout, mout2=None):
         return
     if mout is not None and wire.s(mout) != line:
         ctx.disagree(inp, wire.s(mout), line, 'str(IrcMsg(kw))')
+    # messages do not share state: writing into one message's tag dict (Irc.takeMsg adds label=, _makeReply adds
+    # +draft/reply= in place) must not show up in a message built afterwards without tags
+    if not g['tags']:
+        kw = dict(prefix=g['prefix'], command=g['command'], args=tuple(g['args']))
+        a = ircmsgs.IrcMsg(**kw)                    # server_tags left to its default
+        if not isinstance(a.server_tags, dict) or not isinstance(m.server_tags, dict):
+            ctx.fail(inp, 'a message built without tags has server_tags = %r / %r, not a dict' % (a.server_tags, m.server_tags))
+        else:
+            a.server_tags['verif-leak'] = 'x'
+            fresh = ircmsgs.IrcMsg(**kw)
+            leaked = bool(fresh.server_tags) or str(fresh) != line
+            del a.server_tags['verif-leak']
+            if leaked:
+                ctx.fail(inp, 'a message built without tags after another one was tagged in place serialises as %r' % str(fresh))
     # the cache: every later str()/len() must give the string the first str() gave (theorem C05_str_stable)
     line2, n = str(m), len(m)
     if mout2 is not None and [wire.s(x) for x in mout2] != [line, line2]:
